@@ -205,11 +205,19 @@ countnz(const int_t n, int_t *xprune, int_t *nnzL, int_t *nnzU, GlobalLU_t *Glu)
  * storage for the adjancency lists of the pruned graph, and applies
  * row permuation to the row subscripts of matrix $L$.
  */
+/* Order supernodes by the position of their subscripts in lsub[]. */
+static int fixupL_cmp(const void *a, const void *b)
+{
+    const int_t *x = (const int_t *) a, *y = (const int_t *) b;
+    return (x[0] > y[0]) - (x[0] < y[0]);
+}
+
 void
 fixupL(const int_t n, const int_t *perm_r, GlobalLU_t *Glu)
 {
     register int_t nsuper, fsupc, nextl, i, j, jstrt;
     register int_t *xsup, *xsup_end, *lsub, *xlsub, *xlsub_end;
+    int_t *order; /* pairs (start in lsub[], supernode number) */
 
     if ( n <= 1 ) return;
 
@@ -220,12 +228,23 @@ fixupL(const int_t n, const int_t *perm_r, GlobalLU_t *Glu)
     xlsub_end = Glu->xlsub_end;
     nsuper    = Glu->supno[n];
     nextl     = 0;
+
+    /* With more than one thread the supernode numbers and the space in
+       lsub[] are handed out under different locks, so the storage order
+       need not follow the numbering. The in-place compression below is
+       only safe when the supernodes are visited in storage order. */
+    order = intMalloc(2 * (nsuper + 1));
+    for (i = 0; i <= nsuper; i++) {
+	order[2*i] = xlsub[xsup[i]];
+	order[2*i+1] = i;
+    }
+    qsort(order, nsuper + 1, 2 * sizeof(int_t), fixupL_cmp);
     
     /* 
      * For each supernode ...
      */
     for (i = 0; i <= nsuper; i++) {
-	fsupc = xsup[i];
+	fsupc = xsup[order[2*i+1]];
 	jstrt = xlsub[fsupc];
 	xlsub[fsupc] = nextl;
 	for (j = jstrt; j < xlsub_end[fsupc]; j++) {
@@ -235,6 +254,7 @@ fixupL(const int_t n, const int_t *perm_r, GlobalLU_t *Glu)
 	xlsub_end[fsupc] = nextl;
     }
     xlsub[n] = nextl;
+    SUPERLU_FREE (order);
 
 #if ( PRNTlevel==1 )
     printf(".. # edges in supernodal graph of L = " IFMT "\n", nextl);
